@@ -141,6 +141,8 @@ class Prop(BaseProp):
             runs.append(dict(g, interval=("3", "5"), account=str([1, 7, H - 2, 0][j]), testnet=(j % 2 == 0), paranoia=(j % 2 == 1)))
         runs.append(dict(good[0], interval=("0", "1"), file="new"))
         runs.append(dict(good[1], interval=("0", "1"), file="new", paranoia=True))
+        runs.append(dict(good[0], interval=("0", "1"), file="new-siblings"))
+        runs.append(dict(good[1], interval=("0", "1"), file="new-siblings", paranoia=True, testnet=True))
         runs.append(dict(good[0], interval=("0", "1"), file="existing"))
         runs.append(dict(good[0], interval=("0", "1"), file="dir"))
         runs.append(dict(good[0], interval=("0", "1"), file="unwritable"))
@@ -189,8 +191,13 @@ class Prop(BaseProp):
         try:
             fpath, fstate = None, v.get("file")
             existing_bytes = None
-            if fstate == "new":
+            siblings = {}
+            if fstate in ("new", "new-siblings"):
                 fpath = os.path.join(tmp, "out.json")
+                if fstate == "new-siblings":          # other files next to the target: none of them may be touched
+                    for nm in ("out.json.tmp", "out.json~", "out.json.bak", ".out.json.swp", "out.json.new", "out.json.part", "out", "out.json.lock"):
+                        siblings[os.path.join(tmp, nm)] = b"precious " + nm.encode()
+                        open(os.path.join(tmp, nm), "wb").write(siblings[os.path.join(tmp, nm)])
             elif fstate == "existing":
                 fpath = os.path.join(tmp, "have.json")
                 existing_bytes = b"precious"
@@ -214,6 +221,12 @@ class Prop(BaseProp):
             untouched = True
             if existing_bytes is not None:
                 untouched = open(fpath, "rb").read() == existing_bytes
+            for sp, sb in siblings.items():
+                try:
+                    if open(sp, "rb").read() != sb:
+                        untouched = False
+                except Exception:
+                    untouched = False
             api = None
             secret_valid = None
             if v["cmd"] not in ("new", "none"):
@@ -233,7 +246,7 @@ class Prop(BaseProp):
                     data = json.loads(out)
                 except Exception:
                     data = "not-json"
-            if file_created and fstate == "new" and os.path.isfile(fpath):
+            if file_created and fstate in ("new", "new-siblings") and os.path.isfile(fpath):
                 try:
                     fdata = json.loads(open(fpath).read())
                 except Exception:
@@ -261,7 +274,7 @@ class Prop(BaseProp):
         opt = lambda s: "None" if s is None else "(Some %s)" % zs(s)
         fs = "None"
         if v.get("file"):
-            st = v["file"]
+            st = "new" if v["file"] == "new-siblings" else v["file"]
             fs = "(Some {| is_dir := %s; exists_ := %s; parent_writable := %s |})" % (cbool(st == "dir"), cbool(st in ("existing", "dir")), cbool(st != "unwritable"))
         a = "{| a_account := %s; a_interval := %s; a_file := %s; a_command := %d; a_secret := %s; a_mnemonic_len := %s |}" % (
             opt(v.get("account")), "None" if not v.get("interval") else "(Some (%s, %s))" % (zs(v["interval"][0]), zs(v["interval"][1])),
